@@ -476,17 +476,31 @@ CENSUS_FNS = {   # name -> properties whose tie it belongs to (functions of src/
 }
 
 
+# functions of src/link.rs that the translator does not cover (the map wrapper and the Link constructors)
+LINK_CENSUS_FNS = {"new": ("C08",), "clear": ("C08",), "is_empty": ("C08", "C14"), "iter": ("C08",),
+                   "extract_if": ("C08",), "forward": ("C08",), "backward": ("C08",), "loopback": ("C08",),
+                   "kind": ("C08",), "as_forward": ("C08",), "as_ptr": ("C08",), "as_ref": ("C08",),
+                   "into_raw_non_null": ("C08",), "weak_ref": ("C06",), "strong_ref": ("C06",), "clone": ("C08",)}
+
+
 def source_census(repo=None):
-    """normalised text of every function of src/rc.rs that the translator does not cover (comments, the
-    verif instrumentation and white space removed), keyed by name and occurrence: what the glue and raw-API
-    expectations were written from"""
+    """normalised text of every function of src/rc.rs and src/link.rs that the translator does not cover
+    (comments, the verif instrumentation and white space removed), keyed by name and occurrence: what the
+    glue and raw-API expectations and the model's reading of the map wrapper were written from"""
     repo = repo or P.REPO
-    src = re.sub(r"//[^\n]*", "", open(repo + "/src/rc.rs").read())
+    out = {}
+    for fname, table, prefix in (("rc.rs", CENSUS_FNS, ""), ("link.rs", LINK_CENSUS_FNS, "link.rs:")):
+        out.update(_census_file(repo + "/src/" + fname, table, prefix))
+    return out
+
+
+def _census_file(path, table, prefix):
+    src = re.sub(r"//[^\n]*", "", open(path).read())
     src = re.sub(r"#\[cfg\(cactusref_verif\)\]\s*[^;{]*;", "", src)
     out, seen = {}, collections.Counter()
     for m in re.finditer(r"\bfn\s+(\w+)\s*(?:<[^>{]*>)?\s*\(", src):
         name = m.group(1)
-        if name not in CENSUS_FNS:
+        if name not in table:
             continue
         i = src.find("{", m.end())
         semi = src.find(";", m.end())
@@ -499,7 +513,7 @@ def source_census(repo=None):
             j += 1
         body = "".join(src[m.start():j].split())
         seen[name] += 1
-        out["%s#%d" % (name, seen[name])] = hashlib.sha256(body.encode()).hexdigest()[:16]
+        out["%s%s#%d" % (prefix, name, seen[name])] = hashlib.sha256(body.encode()).hexdigest()[:16]
     return out
 
 
@@ -507,13 +521,16 @@ def census_ties(pid):
     want = json.load(open(os.path.join(P.ROOT, "lib", "source_census.json")))
     got = source_census()
     ties = []
+    def props_of(k):
+        nm = k.split("#")[0]
+        return LINK_CENSUS_FNS.get(nm[8:], ()) if nm.startswith("link.rs:") else CENSUS_FNS.get(nm, ())
     for k in sorted(set(want) | set(got)):
-        if want.get(k) != got.get(k) and pid in CENSUS_FNS.get(k.split("#")[0], ()):
-            ties.append({"type": "census", "hid": "source-census", "line": "src/rc.rs fn " + k, "idx": 0,
+        if want.get(k) != got.get(k) and pid in props_of(k):
+            ties.append({"type": "census", "hid": "source-census", "line": "src fn " + k, "idx": 0,
                          "fields": ["untranslated-source"],
                          "model": "the expectations for this function were written from the text with digest %s" % want.get(k),
                          "impl": "its text now has digest %s" % got.get(k), "stream": "source"})
-    return {"functions": len([k for k in got if pid in CENSUS_FNS.get(k.split("#")[0], ())]), "ties": ties}
+    return {"functions": len([k for k in got if pid in props_of(k)]), "ties": ties}
 
 
 def _extra_checks(pid, cfg, tier, seed):
@@ -566,7 +583,7 @@ def extra_checks(pid, cfg, tier, seed):
     if os.environ.get("VERIF_NO_STATIC"):       # experiments only (tools/auto_mutants.py): the dynamic tie alone
         r["tie_breaks"] = [t for t in r.get("tie_breaks", []) if t.get("type") != "census"]
         return r
-    if pid in ("C05", "C06", "C07", "C12"):
+    if pid in ("C05", "C06", "C07", "C08", "C12", "C14"):
         c = census_ties(pid)
         r["tie_breaks"] = list(r.get("tie_breaks", [])) + c["ties"]
         ev = dict(r.get("evidence", {}))
